@@ -548,6 +548,12 @@ fn sc_swaps_and_routes(t: &mut Tracer) {
         w.route(&tr, &[h("o.ss3", "uusd", "uusdt"), h("o.cp1", "uusdt", "uusdc"), h("o.ss1", "uusdc", "uusd"), h("o.ss3", "uusd", "uusdt")], &[coin(amt, "uusd")], None, None, half);
         w.route(&tr, &[h("o.ss3", "uusd", "uusdt"), h("o.ss3", "uusdt", "uweth")], &[coin(amt, "uusd")], None, None, half);
     }
+    // out through two pools and back through the same two: every hop's loss is judged against the tolerance on the reserves the
+    // hop meets (a ladder of tolerances around the last hop's price impact)
+    for pct in [2u64, 4, 6, 8, 10, 12, 15, 20] {
+        w.route(&tr, &[h("o.cp0", "uom", "uusd"), h("o.ss1", "uusd", "uusdc"), h("o.ss1", "uusdc", "uusd"), h("o.cp0", "uusd", "uom")],
+                &[coin(150_000, "uom")], None, None, Some(Decimal::percent(pct)));
+    }
     // funds in a denom other than the first hop's declared input, which the first pool holds as well: refused
     w.route(&tr, &[h("o.ss3", "uusd", "uweth")], &[coin(1_000_000, "uusdt")], None, None, half);
     w.route(&tr, &[h("o.ss3", "uusd", "uweth"), h("o.cp2", "uweth", "uusdt")], &[coin(1_000_000, "uusdt")], None, None, half);
@@ -1299,6 +1305,24 @@ pub fn run_stable(rng: &mut StdRng, thorough: bool, t: &mut Tracer) {
                 w.provide(&lp, &pid, &sorted(vec![coin(*big, "uusd"), coin(1_000_000_000, "uusdc"), coin(1_000_000_000, "uusdt"), coin(1_000_000_000, "uweth")]), None, None, None, None, None);
                 w.swap(&lp, &pid, &[coin(1_000_000, "uusdc")], "uusd", None, half, None);
             }
+        }
+    }
+    // mixed decimals, and the raw reserves happen to be the same number for every asset (10^12 units each in a 6/8/8 pool is
+    // 1 000 000 : 10 000 : 10 000 tokens): nothing special about that
+    {
+        let mut w = PW::new(SysCfg::default(), t, "stable_equal_raw_reserves");
+        let o = w.user(0);
+        let ok = w.creation_funds();
+        let lp = w.user(1);
+        let half = Some(Decimal::percent(50));
+        if w.create_pool(&o, &["uusd", "uusdc", "uusdt"], &[6, 8, 8], zero.clone(), SS(1000), Some("eq"), &ok) {
+            w.provide(&lp, "o.eq", &sorted(vec![coin(1_000_000_000_000, "uusd"), coin(1_000_000_000_000, "uusdc"), coin(1_000_000_000_000, "uusdt")]), None, None, None, None, None);
+            w.swap(&lp, "o.eq", &[coin(50_000, "uusdc")], "uusd", None, half, None);
+        }
+        if w.create_pool(&o, &["uusd", "uweth"], &[6, 18], zero.clone(), SS(85), Some("eq2"), &ok) {
+            w.provide(&lp, "o.eq2", &sorted(vec![coin(5_000_000_000_000_000_000, "uusd"), coin(5_000_000_000_000_000_000, "uweth")]), None, None, None, None, None);
+            w.swap(&lp, "o.eq2", &[coin(1_000_000_000_000_000, "uweth")], "uusd", None, half, None);
+            w.rsim("o.eq2", &coin(1_000_000, "uusd"), "uweth");
         }
     }
     // the witness of recorded finding F12 (first-deposit D of a skewed four-asset pool), independent of the seed
